@@ -22,6 +22,32 @@ the classes of `mro(cls)[1:]` hold under the same name (`none`: the class skips 
 declaration), and `Outcome.reached` says the merge got to the re-validation
 decision (it is `ok` or `invalid _`).
 
+What these theorems do and do not say (reader's guide):
+* "Specified" is read off the *constructed* Parameter (`own.slots s ≠ none`), because that is
+  what `__param_inheritance` sees.  `declared_attribute_resolution` / `construct_shape` restate it
+  for the declaration's keyword arguments for every slot a constructor stores verbatim;
+  `allowNone_from_own_declaration` covers `allow_None`.  The other derived slots (`constant` under
+  `readonly`, Tuple `length`, List `class_`, Selector `default`/`objects`/`names`) are specified by
+  the constructor model only.
+* `Sat` ("the merged default satisfies the merged constraints and type") is the model's own
+  `validate`; `sat_number_in_bounds`, `sat_integer_type`, `sat_string_regex/type`,
+  `sat_tuple_length`, `sat_list_bounds_items`, `sat_selector_membership` say what it means for
+  well-typed configurations (regex matching is the oracle bit `rx`).
+* The failure theorems are stated for `inherit` (`creation_fails_iff`, `creation_fails_iff_spec`)
+  and, with the side conditions discharged, for any world satisfying the invariant — by
+  `reachable_inv` every world a history of declarations and `add_parameter` calls can produce —
+  in `merge_fails_iff_reachable` and `declare_fails_iff` (`step` level: creation raises at the
+  least declaration the specification rejects).  Two scope conditions remain hypotheses:
+  `≠ unsupported` (inputs outside the modelled fragment: non-list Selector objects, non-atomic
+  Selector defaults, malformed bounds) and a boolean `check_on_set`.
+* `Val.is` treats equal None/bool/int/str/class values and `()` as identical and everything else
+  (floats, non-empty tuples, lists, dicts) by object identity.  That is CPython's behaviour for the
+  values the harness uses (ints in [-5, 256], interned strings — asserted by the adapter), not for
+  all Python values: `Number(default=1000)` at two levels would be two objects.
+* Worlds change only by class declaration and `add_parameter`: assigning to a slot of an existing
+  Parameter (`C.param.x.bounds = …`, not re-validated by param) or a class-level value assignment
+  are not operations of this model, so the invariant is about creation histories.
+
 One clause of the statement is FALSE of the code as it is and is refuted below
 from a concrete witness (replayed on the implementation by the harness): `names`
 of a dict-declared Selector is not inherited.  (A failed `add_parameter` used to
@@ -82,6 +108,36 @@ theorem held_eq_expected (rx : String → String → Bool) (op name : Nat) (own 
     {s : Slot} (hs : hasSlot own.ptype s = true) (hn : s ≠ .names) :
     (inherit rx op name own supers).param.cfg s = expected own supers s :=
   held_eq_expected_all rx op name own supers hr hcos hs hn
+
+/-- The same, read off the *declaration's keyword arguments* rather than off the constructed
+Parameter: for every slot the constructor stores verbatim (`derivedSlot` lists the exceptions:
+`allow_None`, `constant`, Tuple `length`, List `item_type`/`class_`, Selector `default`/`objects`/`names`),
+an argument that is given is held, and one that is left out is taken from the nearest class of
+the MRO holding the slot, else from the type's default.  (`construct_shape` in the lemma file says
+exactly which slots a constructor stores verbatim.) -/
+theorem declared_attribute_resolution (rx : String → String → Bool) (op op' name : Nat) (d : Decl) (own : Param)
+    (supers : List (Option Param))
+    (hc : construct rx op' name d = .ok own)
+    (hr : (inherit rx op name own supers).outcome.reached = true)
+    {s : Slot} (hs : hasSlot d.ptype s = true) (hder : derivedSlot d.ptype s = false)
+    (hcomp : Slot.computedFor d.ptype s = false) :
+    (inherit rx op name own supers).param.cfg s =
+      (match d.args s with
+       | some v => some v.v
+       | none =>
+         match nearest supers s with
+         | some v => some v.v
+         | none =>
+           match typeDefault d.ptype s with
+           | .static v => some v.v
+           | _ => none) := by
+  obtain ⟨hpt, hsl, _⟩ := construct_shape rx op' name d own hc
+  have hn : s ≠ .names := by
+    intro e; subst e
+    have := hasSlot_names hs
+    rw [this] at hder; cases hder
+  rw [held_slot_eq_nearest rx op name own supers hr (by rw [hpt]; exact hs) hn (by rw [hpt]; exact hcomp),
+    hsl s hs hder, hpt]
 
 /-- `nearest` is the first class of the MRO (after the class itself) that declares the
 Parameter with the slot: classes that skip the declaration, or whose Parameter type lacks the
@@ -377,6 +433,123 @@ theorem creation_fails_iff_spec (rx : String → String → Bool) (op name : Nat
       | _ => simp [PyV.isNone]
     rw [h3]
 
+/-- **Creation fails iff, for reachable worlds**: in a world satisfying the invariant — by
+`reachable_inv` the world left by *any* history — merging a
+declaration whose constructor succeeded fails exactly when the declarative specification says so.
+The side conditions of `creation_fails_iff_spec` are discharged: `OwnValid` by
+`construct_ownValid`, valid ancestors by the invariant of `run`, KeyError by `construct_shape`.
+What remains is the scope of the model (`≠ unsupported`, a boolean `check_on_set`). -/
+theorem reachable_inv (rx : String → String → Bool) (ops : List Op) :
+    (run rx ops 0 World.empty []).1.Inv rx :=
+  run_preserves_inv rx (construct_ownValid rx) ops 0 World.empty [] (by intro c n p hp; cases hp)
+
+theorem merge_fails_iff_reachable (rx : String → String → Bool) (w : World) (hinv : w.Inv rx)
+    (op op' name : Nat) (d : Decl) (own : Param) (tail : List Nat)
+    (hc : construct rx op' name d = .ok own)
+    (hsupp : (inherit rx op name own (w.supers tail name)).outcome ≠ .unsupported)
+    (hcos : own.ptype = .selector → ∃ b, specCheckOnSet own (w.supers tail name) = some (.atom (.bool b))) :
+    (inherit rx op name own (w.supers tail name)).outcome ≠ .ok ↔ shouldFail rx own (w.supers tail name) = true := by
+  obtain ⟨hpt, _, hnames⟩ := construct_shape rx op' name d own hc
+  exact creation_fails_iff_spec rx op name own _ (construct_ownValid rx op' name d own hc)
+    (fun h hm => supers_good hinv tail name hm) hsupp
+    (inherit_not_keyError rx op name own _ (fun hT => hnames (by rw [← hpt]; exact hT))) hcos
+
+/-- the declaration of a new class `cls` below existing classes is well-formed: not skipped by `step` -/
+def declareWF (w : World) (cls : Nat) (tail : List Nat) : Prop :=
+  w.mro cls = none ∧ (∀ a ∈ tail, (w.mro a).isSome = true) ∧ cls ∉ tail
+
+/-- **Class creation fails exactly at the first declaration the specification rejects** — stated
+for `step`, on any world satisfying the invariant, in particular (`reachable_inv`) the world left by any history.  With all constructors of the class body having
+succeeded (`raws`), the class is created iff no declaration `shouldFail`; otherwise creation raises
+while merging declaration number `k`, the least one that `shouldFail`. -/
+theorem declare_fails_iff (rx : String → String → Bool) (w : World) (hinv : w.Inv rx) (i cls : Nat)
+    (tail : List Nat) (decls : List (Nat × Decl)) (raws : List (Nat × Param))
+    (hwf : declareWF w cls tail)
+    (hca : constructAll rx i decls 0 [] = .ok raws)
+    (hsupp : ∀ x ∈ raws, mergeOutcome rx i w tail x ≠ .unsupported)
+    (hcos : ∀ x ∈ raws, x.2.ptype = .selector →
+      ∃ b, specCheckOnSet x.2 (w.supers tail x.1) = some (.atom (.bool b))) :
+    ((step rx i w (.declare cls (cls :: tail) decls)).2.outcome = .ok ↔
+        ∀ x ∈ raws, shouldFail rx x.2 (w.supers tail x.1) = false) ∧
+    (∀ k, (∃ o, (step rx i w (.declare cls (cls :: tail) decls)).2.outcome = .mergeError k o) ↔
+        ∃ x, raws[k]? = some x ∧ shouldFail rx x.2 (w.supers tail x.1) = true ∧
+          ∀ j x', j < k → raws[j]? = some x' → shouldFail rx x'.2 (w.supers tail x'.1) = false) := by
+  -- per declaration: the merge fails iff the specification says so
+  have hel : ∀ x ∈ raws, (mergeOutcome rx i w tail x ≠ .ok ↔ shouldFail rx x.2 (w.supers tail x.1) = true) := by
+    intro x hx
+    obtain ⟨n, p⟩ := x
+    rcases constructAll_mem rx i decls 0 [] raws hca n p hx with h | ⟨d, _, hcd⟩
+    · cases h
+    · have h1 := hsupp _ hx
+      have h2 := hcos _ hx
+      simp only [mergeOutcome] at h1 ⊢
+      exact merge_fails_iff_reachable rx w hinv i i n d p tail hcd h1 h2
+  have hel' : ∀ x ∈ raws, (mergeOutcome rx i w tail x = .ok ↔ shouldFail rx x.2 (w.supers tail x.1) = false) := by
+    intro x hx
+    have := hel x hx
+    constructor
+    · intro h; cases hs : shouldFail rx x.2 (w.supers tail x.1) with
+      | false => rfl
+      | true => exact absurd h (this.2 hs)
+    · intro h
+      by_cases hne : mergeOutcome rx i w tail x = .ok
+      · exact hne
+      · rw [this.1 hne] at h; cases h
+  have hmem : ∀ {j x}, raws[j]? = some x → x ∈ raws := fun h => List.mem_of_getElem? h
+  -- the step
+  obtain ⟨h1, h2, h3⟩ := hwf
+  have hcond : ((cls != cls || (w.mro cls).isSome || tail.any fun a => (w.mro a).isNone) || tail.contains cls) = false := by
+    simp only [bne_self_eq_false, h1, Option.isSome_none, Bool.or_self, Bool.false_or, Bool.or_eq_false_iff,
+      List.any_eq_false, List.contains_eq_mem, decide_eq_false_iff_not]
+    refine ⟨?_, h3⟩
+    intro a ha
+    have := h2 a ha
+    cases h : w.mro a with
+    | none => simp [h] at this
+    | some _ => simp
+  have hfail := mergeAll_fail_iff rx i w tail raws 0 []
+  simp only [step, hcond, Bool.false_eq_true, if_false, hca]
+  cases hma : mergeAll rx i w tail raws 0 [] with
+  | mk merged fail =>
+    rw [hma] at hfail
+    simp only [] at hfail
+    cases fail with
+    | none =>
+      simp only []
+      have hall : ∀ x ∈ raws, mergeOutcome rx i w tail x = .ok :=
+        mergeAll_none_all_ok rx i w tail raws 0 [] (by rw [hma])
+      refine ⟨⟨fun _ x hx => (hel' x hx).1 (hall x hx), fun _ => trivial⟩, ?_⟩
+      intro k
+      constructor
+      · rintro ⟨o, ho⟩; cases ho
+      · rintro ⟨x, hx, hs, _⟩
+        have := (hel' x (hmem hx)).1 (hall x (hmem hx))
+        rw [hs] at this; cases this
+    | some f =>
+      obtain ⟨k0, o0⟩ := f
+      simp only []
+      obtain ⟨j, x, hk, hx, ho, hne, hprev⟩ := (hfail k0 o0).1 rfl
+      have hk' : k0 = j := by omega
+      subst hk'
+      have hsx : shouldFail rx x.2 (w.supers tail x.1) = true := (hel x (hmem hx)).1 (by rw [ho]; exact hne)
+      refine ⟨⟨fun h => (by cases h), fun h => ?_⟩, ?_⟩
+      · have := h x (hmem hx); rw [hsx] at this; cases this
+      · intro k
+        constructor
+        · rintro ⟨o, ho'⟩
+          simp only [StepOutcome.mergeError.injEq] at ho'
+          obtain ⟨rfl, _⟩ := ho'
+          exact ⟨x, hx, hsx, fun j' x' hlt hx' => (hel' x' (hmem hx')).1 (hprev j' x' hlt hx')⟩
+        · rintro ⟨x2, hx2, hs2, hprev2⟩
+          -- both k0 and k are the least rejected index
+          have : k = k0 := by
+            rcases Nat.lt_trichotomy k k0 with hlt | heq | hgt
+            · have := (hel' x2 (hmem hx2)).1 (hprev k x2 hlt hx2); rw [hs2] at this; cases this
+            · exact heq
+            · have := hprev2 k0 x hgt hx; rw [hsx] at this; cases this
+          subst this
+          exact ⟨o0, rfl⟩
+
 /-- `callableError` is exactly "a computed slot cannot be computed": the only such slot that can
 fail for a well-formed declaration is a Tuple's length when no class supplies one and the merged
 default has no `len`. -/
@@ -591,6 +764,70 @@ theorem sat_number_in_bounds (rx : String → String → Bool) (c : Cfg) (allowN
   simp only [validate, validateNumber, h1, h2, h3, h4, numValueOk, numStepOk, PyV.isNone, PyV.isNumber, Atom.num2,
     PyV.truthy, checkNumBounds, boundOk, PyV.isTrue]
   by_cases hh : v ≤ hi <;> by_cases hl : lo ≤ v <;> simp [hh, hl] <;> omega
+
+/-- …and for the other types (each under a well-typed configuration): what `Sat` means is
+independent of the model's validator code. -/
+theorem sat_integer_type (rx : String → String → Bool) (c : Cfg) (d : PyV)
+    (h1 : c .allowNone = some (.atom (.bool false))) (h2 : c .step = some (.atom .pyNone))
+    (h3 : c .bounds = some (.atom .pyNone)) (h4 : c .inclusiveBounds = some (.tuple [.bool true, .bool true]))
+    (h5 : c .default = some d) :
+    Sat rx .integer c = true ↔ (∃ n, d = .atom (.int n)) ∨ (∃ b, d = .atom (.bool b)) := by
+  rw [Sat_iff_validate h5]
+  simp only [validate, validateNumber, h1, h2, h3, h4, numValueOk, numStepOk, PyV.isNone, PyV.truthy, checkNumBounds]
+  cases d with
+  | atom a => cases a <;> simp [PyV.isInt]
+  | _ => simp [PyV.isInt]
+
+theorem sat_string_regex (rx : String → String → Bool) (c : Cfg) (r s : String)
+    (h1 : c .allowNone = some (.atom (.bool false))) (h2 : c .regex = some (.atom (.str r)))
+    (h3 : c .default = some (.atom (.str s))) :
+    Sat rx .string c = true ↔ rx r s = true := by
+  rw [Sat_iff_validate h3]
+  simp only [validate, validateString, Cfg.get, h1, h2, bind, Except.bind, pure, Except.pure, PyV.truthy, PyV.isNone]
+  cases rx r s <;> simp
+
+theorem sat_string_type (rx : String → String → Bool) (c : Cfg) (d : PyV)
+    (h1 : c .allowNone = some (.atom (.bool false))) (h2 : c .regex = some (.atom .pyNone))
+    (h3 : c .default = some d) :
+    Sat rx .string c = true ↔ ∃ s, d = .atom (.str s) := by
+  rw [Sat_iff_validate h3]
+  simp only [validate, validateString, Cfg.get, h1, h2, bind, Except.bind, pure, Except.pure, PyV.truthy]
+  cases d with
+  | atom a => cases a <;> simp
+  | _ => simp
+
+theorem sat_tuple_length (rx : String → String → Bool) (c : Cfg) (l : List Atom) (n : Int)
+    (h1 : c .allowNone = some (.atom (.bool false))) (h2 : c .length = some (.atom (.int n)))
+    (h3 : c .default = some (.tuple l)) :
+    Sat rx .tuple c = true ↔ (l.length : Int) = n := by
+  rw [Sat_iff_validate h3]
+  simp only [validate, validateTuple, Cfg.get, h1, h2, bind, Except.bind, pure, Except.pure, PyV.truthy, PyV.isNone,
+    Atom.pyEq, Atom.num2]
+  by_cases h : (l.length : Int) = n
+  · simp [h]
+  · simp [h]; omega
+
+theorem sat_selector_membership (rx : String → String → Bool) (c : Cfg) (cos an : Bool) (l : List Atom) (x : Atom)
+    (h1 : c .checkOnSet = some (.atom (.bool cos))) (h2 : c .allowNone = some (.atom (.bool an)))
+    (h3 : c .objects = some (.list l)) (h4 : c .default = some (.atom x)) :
+    Sat rx .selector c = true ↔ cos = false ∨ (an = true ∧ x = .pyNone) ∨ ∃ y ∈ l, x.pyEq y = true := by
+  rw [Sat_iff_validate h4]
+  simp only [validate, validateSelector, h1, h2, h3, PyV.truthy, memObjs]
+  cases cos <;> cases an <;> simp [PyV.isNone]
+  · cases h : l.any (x.pyEq ·) <;> simp_all
+  · cases x <;> simp <;> (cases h : l.any (Atom.pyEq _ ·) <;> simp_all)
+
+theorem sat_list_bounds_items (rx : String → String → Bool) (c : Cfg) (l : List Atom) (lo hi : Int) (tag : String)
+    (h1 : c .allowNone = some (.atom (.bool false))) (h2 : c .bounds = some (.tuple [.int lo, .int hi]))
+    (h3 : c .itemType = some (.atom (.cls tag))) (h4 : c .default = some (.list l)) :
+    Sat rx .list c = true ↔ (lo ≤ (l.length : Int) ∧ (l.length : Int) ≤ hi) ∧ ∀ v ∈ l, v.isInstance tag = true := by
+  rw [Sat_iff_validate h4]
+  simp only [validate, validateList, Cfg.get, h1, h2, h3, bind, Except.bind, pure, Except.pure, PyV.truthy, PyV.isNone,
+    checkListBounds, boundOk, Atom.num2]
+  by_cases ha : lo ≤ (l.length : Int) <;> by_cases hb : (l.length : Int) ≤ hi <;>
+    cases hc : l.all (·.isInstance tag) <;>
+    simp [ha, hb, throw, throwThe, MonadExcept.throw] <;>
+    first | (simpa using hc) | (intro h; simpa using hc) | (intro _ _; simpa using hc) | skip
 
 /-! ## Non-vacuity: concrete hierarchies (evaluated by the kernel) -/
 
